@@ -171,6 +171,10 @@ func c15Gen(seed int64, i int) c15Stream {
 			{Source: identityEvent(7, -5, time.Now()), PID: -5, CredUserID: "c"},
 			{Source: nil, PID: 99, CredUserID: "c"},
 			{Source: identityEvent(7, 99, time.Now()), PID: 99, CredUserID: ""},
+			// the same defects on a login whose PID is that of the stream's own session
+			// (already open and bound when the login arrives after the LOGIN record)
+			{Source: nil, PID: s.Pid, CredUserID: "c"},
+			{Source: identityEvent(7, s.Pid, time.Now()), PID: s.Pid, CredUserID: ""},
 		}
 		s.BadLogin = bad[(i/len(kinds))%len(bad)]
 		s.FaultPos = (i / (len(kinds) * len(bad))) % (len(s.Lines) + 1)
@@ -433,7 +437,7 @@ func checkC15(r *vlib.Run) int {
 	r.Require(res.stats["events_reaching_correlator"] > n, "too few events observed")
 	r.Assumptions = []string{"a line is malformed iff go-libaudit's auparse.ParseLogLine rejects it (candidates it accepts are treated as records)",
 		"every stream runs in a fresh Auditd.Read with the session's login bound first, so each well-formed kernel event must yield exactly one UserAction"}
-	return r.Finish(res.stats["streams"], res.distinct.Len(), "generated audit streams (3-100 events) with: a malformed line (9 kinds) at every position in turn; line-wise interleavings of the records of 2-3 concurrent kernel events; the event writer failing at the k-th event for every k, with the login bound first or late (so that the failing write is one of the hold-queue flush); an invalid login (PID 0, negative, nil source, empty credential) at every position; a LOGIN record with an unparsable pid; clean streams; distinct = (kind, fault position, fault index) combinations")
+	return r.Finish(res.stats["streams"], res.distinct.Len(), "generated audit streams (3-100 events) with: a malformed line (9 kinds) at every position in turn; line-wise interleavings of the records of 2-3 concurrent kernel events; the event writer failing at the k-th event for every k, with the login bound first or late (so that the failing write is one of the hold-queue flush); an invalid login (PID 0, negative, nil source, empty credential; also with the PID of the stream's own open session) at every position; a LOGIN record with an unparsable pid; clean streams; distinct = (kind, fault position, fault index) combinations")
 }
 
 func jsonUnmarshal(s string, v any) error { return json.Unmarshal([]byte(s), v) }
